@@ -87,7 +87,11 @@ impl Ctx<'_> {
 		}
 		let shape = B::shape();
 		let mut n = 0;
-		for v in domain::values(&shape, &domain::Bound::small()) {
+		// sequences of compound elements also at 16 383..16 385 elements (several preallocation chunks of
+		// the item-by-item decoder): an alias must decode as its target at every length
+		let mut bound = domain::Bound::small();
+		bound.big_fills = family.contains("(u8, bool)") || family.contains("String");
+		for v in domain::values(&shape, &bound) {
 			if ref_enc(&shape, &v).is_err() {
 				continue;
 			}
